@@ -157,6 +157,7 @@ func FindInsertionPoints(
 			newInsertionPoints := [][]string{}
 
 			// each value in the result contributes an insertion point
+		entries:
 			for entryI, iEntry := range rootList {
 				resultEntry, ok := iEntry.(map[string]interface{})
 				if !ok {
@@ -188,7 +189,8 @@ func FindInsertionPoints(
 							}
 
 							if id == nil {
-								return nil, nil
+								// nothing more is asked for an object of this type, the other entries still count
+								continue entries
 							}
 
 							// add the id to the entry so that the executor can use it to form its query
